@@ -182,7 +182,10 @@ func refDialects(names []string) []byte {
 
 func dialectFraming() {
 	rng := r.Rand("dialects")
-	pool := []string{"PC NETWORK PROGRAM 1.0", "LANMAN1.0", "Windows for Workgroups 3.1a", "LM1.2X002", "LANMAN2.1", "NT LM 0.12", "X", "a b c"}
+	// OEM strings are byte strings: names with bytes >= 0x80, UTF-8 multi-byte sequences and
+	// invalid UTF-8 must pass through unchanged
+	pool := []string{"PC NETWORK PROGRAM 1.0", "LANMAN1.0", "Windows for Workgroups 3.1a", "LM1.2X002", "LANMAN2.1", "NT LM 0.12", "X", "a b c",
+		"R\xe9seau 1.0", "\xc4\x80LAN", "\xff\xfeOEM\x80", "\xe2\x82\xac-DIALECT", "caf\xc3\xa9"}
 	for n := 0; n <= r.Pick(12, 40); n++ {
 		for t := 0; t < r.Pick(6, 60); t++ {
 			var names []string
